@@ -202,10 +202,15 @@ func runC02(c *Ctx) {
 		R.Fatal("anchor jt808.unescape not found")
 	}
 	R.Require("T.unescape", 8, "")
+	// the phone field is the header bytes rendered by utils.Bcd2Dec (the layout rule above takes that call as the standard's
+	// reading): the helper itself keeps every digit except leading zeros
+	c.bcd2decRule()
+	R.Require("E3.digits", 2, "")
 	_ = load.ModPrefix
 	R.Explain = "Header.decode and JTMessage.Decode are interpreted abstractly for arbitrary input. Decided for all byte strings: (a) no panic / over-read (E1), " +
 		"(b) every successful header decode computes each field exactly as the standard's layout prescribes for the version/fragment bits the path admits, needs the full header length, and every error return is justified by a short input, " +
 		"(c) every successful Decode entails delimiters, zero checksum over the whole unescaped payload and the exact length equation, (d) history independence of the header decoder. " +
 		"(e) unescape implements the standard's inverse byte-stuffing transducer: every successful return has consumed the whole interior, errors are returned only for a broken envelope or a 7d followed by a byte other than 01/02 inside the frame. " +
+		"(f) the digit helper the phone field is rendered with (utils.Bcd2Dec) returns all digits of its argument except leading zeros. " +
 		"Tolerated by design and part of the rule: a 7d that is the last interior byte (unescaped checksum of some devices) is taken literally."
 }
